@@ -342,6 +342,41 @@ theorem fpr_event_selects (r : Row) (h : r.c = none) :
     inE (eventOf .fpr) (MomentsSrc.labelEvent 0) r = (true && r.y == 0) := by
   by_cases hy : r.y = 0 <;> simp [inE, eventOf, baseEvent, h, hy, MomentsSrc.fprLabel]
 
+/-- within a control stratum: the TPR event `control=c0,label=1` selects exactly the rows of stratum `c0` with
+    label 1, the FPR event `control=c0,label=0` those with label 0 (so `gamma_plus_eq_rate` applies with
+    `S := fun r => r.c == some c0`, i.e. to MetricFrame's (control, group) cell minus its control-level overall) -/
+theorem tpr_event_selects_in_stratum (r : Row) (c0 : String) :
+    inE (eventOf .tpr) (MomentsSrc.ctrlFormat c0 (MomentsSrc.labelEvent 1)) r = ((r.c == some c0) && (r.y == 1)) := by
+  apply inE_stratum .tpr 1
+  by_cases hy : r.y = 1 <;> simp [baseEvent, MomentsSrc.tprLabel, hy]
+
+theorem fpr_event_selects_in_stratum (r : Row) (c0 : String) :
+    inE (eventOf .fpr) (MomentsSrc.ctrlFormat c0 (MomentsSrc.labelEvent 0)) r = ((r.c == some c0) && (r.y == 0)) := by
+  apply inE_stratum .fpr 0
+  by_cases hy : r.y = 0 <;> simp [baseEvent, MomentsSrc.fprLabel, hy]
+
+/-- TPR parity with control features, ratio 1, hard predictions: the `+` entry of (stratum c0, group g) is the
+    group's true-positive rate within the stratum minus the stratum's true-positive rate -/
+theorem tpr_gamma_plus_in_stratum (rows : List Row) (hp : List Int) (c0 g : String)
+    (hl : hp.length = rows.length) (hh : ∀ x ∈ hp, x = 0 ∨ x = 1)
+    (hobs : Observed (eventOf .tpr) rows (MomentsSrc.ctrlFormat c0 (MomentsSrc.labelEvent 1)) g) :
+    gammaAt (eventOf .tpr) rows 1 defaultUtil (hp.map (fun x => ind (x == 1)))
+        ⟨.plus, MomentsSrc.ctrlFormat c0 (MomentsSrc.labelEvent 1), g⟩
+      = BaseMetrics.tprOf (toBM (fun r => (r.c == some c0) && r.g == g) rows hp) 0 1
+        - BaseMetrics.tprOf (toBM (fun r => r.c == some c0) rows hp) 0 1 :=
+  gamma_plus_eq_rate (eventOf .tpr) rows hp _ g (fun r => r.c == some c0) 1 hl hobs hh
+    (fun r => tpr_event_selects_in_stratum r c0)
+
+/-- error-rate parity, ratio 1, hard predictions: the `+` entry is the group's misclassification rate within
+    the event's rows minus the misclassification rate of all the event's rows -/
+theorem gamma_plus_eq_error_rate (ev : Ev) (rows : List Row) (hp : List Int) (e g : String)
+    (hl : hp.length = rows.length) (hobs : Observed ev rows e g)
+    (hy : ∀ r ∈ rows, r.y = 0 ∨ r.y = 1) (hh : ∀ x ∈ hp, x = 0 ∨ x = 1) :
+    gammaAt ev rows 1 erpUtil (hp.map (fun x => ind (x == 1))) ⟨.plus, e, g⟩
+      = errRateBM (toBM (inEG ev e g) rows hp) - errRateBM (toBM (inE ev e) rows hp) := by
+  rw [gamma_plus ev rows 1 erpUtil _ e g hobs, errRate_toBM _ rows hp hl hy hh, errRate_toBM _ rows hp hl hy hh]
+  ring
+
 /-! ### non-vacuity: concrete inputs meeting the hypotheses, evaluated by the kernel -/
 
 def ex1 : List Row :=
@@ -358,5 +393,7 @@ example : mkConfig (some (1/4)) (some (1/2)) 0 = .error .bothBounds := by decide
 example : bglGamma (.square 0 1) [⟨1, "a"⟩, ⟨0, "b"⟩, ⟨1, "b"⟩] [1/2, 2, 1] = [1/4, 1/2] := by decide +kernel
 example : errGamma 2 3 [1, 0, 1, 0] [0, 1, 1, 0] = 5/4 := by decide +kernel
 example : (∀ r ∈ ex1, r.y = 0 ∨ r.y = 1) := by decide +kernel
+example : Observed (eventOf .tpr) ex1 (MomentsSrc.ctrlFormat "y" (MomentsSrc.labelEvent 1)) "a" :=
+  ⟨⟨1, "a", some "y"⟩, by decide +kernel⟩
 
 end C06
